@@ -130,8 +130,16 @@ def _run_case(case):
     else:
         from tcv.core import HarnessError
         from tcv.gates import explore
+        def one(prefix):
+            with _Deadline(60):
+                return h.execute(call, prefix, capacity, raise_at=raise_at)
         try:
-            runs = list(explore(lambda prefix: h.execute(call, prefix, capacity, raise_at=raise_at)))
+            runs = list(explore(one))
+        except TimeoutError as e:
+            res.add('evaluations')
+            res.violations.append(Violation(f'parallel_map[{case["impl"]}] hangs', f'case={case}: a controlled execution did not come back ({e}); state left by an earlier call in this process?',
+                                            {'kind': 'pmap', 'case': case, 'choices': []}))
+            return res
         except HarnessError as e:
             if 'out of range' not in str(e) and 'divergence' not in str(e):
                 raise
@@ -158,7 +166,8 @@ def _run_case(case):
         # cross-call state: after a call that propagated an exception, an ordinary call with the same thread count works
         try:
             xs2 = [7, 5, 6]
-            r2 = th.parallel_map(lambda x: ('again', x), xs2, threads=threads, use_tqdm=True, chunksize=2) if case['impl'] == 'threading' else it.parallel_map(lambda x: ('again', x), xs2, threads=threads)
+            with _Deadline(30):
+                r2 = th.parallel_map(lambda x: ('again', x), xs2, threads=threads, use_tqdm=True, chunksize=2) if case['impl'] == 'threading' else it.parallel_map(lambda x: ('again', x), xs2, threads=threads)
             ok2 = r2 == [('again', x) for x in xs2]
             msg2 = repr(r2)
         except Exception as e:  # noqa
@@ -241,6 +250,30 @@ def _check_stop_iteration():
             except (StopIteration, RuntimeError):
                 pass
     return res
+
+
+class _Deadline:
+    """a call that does not come back within `seconds` is interrupted with TimeoutError (main thread only): a changed library may hang, the
+    check must not"""
+
+    def __init__(self, seconds):
+        self.seconds = seconds
+
+    def __enter__(self):
+        import signal
+
+        def on_alarm(signum, frame):
+            raise TimeoutError(f'no answer within {self.seconds} s')
+        self._old = signal.signal(signal.SIGALRM, on_alarm)
+        signal.setitimer(signal.ITIMER_REAL, self.seconds)
+        return self
+
+    def __exit__(self, *a):
+        import signal
+
+        signal.setitimer(signal.ITIMER_REAL, 0)
+        signal.signal(signal.SIGALRM, self._old)
+        return False
 
 
 def _check_stop_iteration_threads():
@@ -326,7 +359,11 @@ def _check_chunk_isolation():
         res.add('transitions')
         case = {'kind': 'isolation', 'n': n, 'threads': threads, 'chunksize': cs}
         try:
-            r = th.parallel_map(f, xs, threads=threads, chunksize=cs, sort=False, use_tqdm=False)
+            with _Deadline(30):
+                r = th.parallel_map(f, xs, threads=threads, chunksize=cs, sort=False, use_tqdm=False)
+        except TimeoutError as e:
+            res.violations.append(Violation('parallel_map[threading] hangs', f'{case}: {e}', case))
+            return res
         except Exception as e:  # noqa
             res.violations.append(Violation('parallel_map[threading] unexpected-exception', f'{case}: {type(e).__name__}: {e}', case))
             continue
@@ -371,9 +408,14 @@ def _check_exception_types():
                     res.add('transitions')
                     case = {'kind': 'exctype', 'exc': exc_type.__name__, 'impl': impl, 'threads': threads}
                     try:
-                        r = fn(f, list(xs), threads)
+                        with _Deadline(30):
+                            r = fn(f, list(xs), threads)
                         res.violations.append(Violation(f'parallel_map[{impl}] exception-lost', f'threads={threads}, f raises {exc_type.__name__} at 14{" (first call only)" if transient else ""}: '
                                                         f'the call returned {r!r}', case))
+                    except TimeoutError as e:
+                        if exc_type is not TimeoutError or e.args != ('from f',):
+                            res.violations.append(Violation(f'parallel_map[{impl}] hangs', f'threads={threads}, f raises {exc_type.__name__} at 14: {e}', case))
+                            return res   # the interpreter's pool / loop state is unknown from here on
                     except exc_type as e:
                         if e.args != ('from f',):
                             res.violations.append(Violation(f'parallel_map[{impl}] wrong-exception', f'threads={threads}: {type(e).__name__}{e.args}', case))
